@@ -88,6 +88,10 @@ class Run:
     """Collects what one check run covered and turns it into exit code + evidence."""
 
     def merge(self, part):
+        for item in part.stats.xc:
+            if len(self.xc_samples) < (16 if self.tier == "quick" else 48):
+                self.xc_samples.append(item)
+        part.stats.xc = []
         self.stats.add(part.stats)
         for d in part.obligations:
             self.obligations.append(d)
@@ -143,6 +147,7 @@ class Run:
         self.vacuity = []
         self.encoder_validation = []
         self.crosscheck = []
+        self.xc_samples = []
         self.traces_validated = 0
         self.max_replays = 2
         self.unreplayed = 0
@@ -279,8 +284,71 @@ class Run:
             self.inconclusive.append(f"known-finding witness {key} crashed rc={rc}: {out[-300:]}")
         return False
 
+    # ---- second solver
+    def run_crosscheck(self):
+        """Re-decide a sample of this run's queries with cvc5 (wheel in the overlay venv).  A verdict that differs from
+        z3's makes the run inconclusive; cvc5 timeouts / unsupported syntax carry no information and are counted."""
+        for item in self.stats.xc:
+            if len(self.xc_samples) < (16 if self.tier == "quick" else 48):
+                self.xc_samples.append(item)
+        if not self.xc_samples:
+            return
+        try:
+            import cvc5
+        except Exception as e:  # noqa: BLE001
+            self.crosscheck.append(dict(solver="cvc5", status=f"not available: {e}"))
+            return
+        tl = "5000" if self.tier == "quick" else "20000"
+        agree = disagree = noinfo = 0
+        reasons = []
+        t0 = time.time()
+        for txt, zv in self.xc_samples:
+            if time.time() - t0 > (60 if self.tier == "quick" else 600):
+                noinfo += 1
+                continue
+            verdict = "error"
+            for attempt in (0, 1):
+                try:
+                    if attempt == 1:
+                        # z3 prints unary sums/products, which cvc5 rejects: re-print the simplified assertions
+                        import z3
+                        q = z3.Solver()
+                        q.add(*[z3.simplify(a) for a in z3.parse_smt2_string(txt)])
+                        txt = q.to_smt2()
+                    slv = cvc5.Solver()
+                    slv.setOption("tlimit-per", tl)
+                    par = cvc5.InputParser(slv)
+                    par.setStringInput(cvc5.InputLanguage.SMT_LIB_2_6, "(set-logic ALL)\n" + txt, "q")
+                    sm = par.getSymbolManager()
+                    while True:
+                        cmd = par.nextCommand()
+                        if cmd.isNull():
+                            break
+                        out = cmd.invoke(slv, sm).strip()
+                        if out in ("sat", "unsat", "unknown"):
+                            verdict = out
+                    break
+                except Exception as e:  # noqa: BLE001
+                    verdict = f"error: {str(e)[:80]}"
+            if verdict in ("sat", "unsat"):
+                if verdict == zv:
+                    agree += 1
+                else:
+                    disagree += 1
+                    self.inconclusive.append(f"solver cross-check: z3 says {zv}, cvc5 says {verdict} on a sampled query ({len(txt)} bytes)")
+            else:
+                noinfo += 1
+                if verdict not in reasons:
+                    reasons.append(verdict)
+        self.crosscheck.append(dict(solver="cvc5 (python wheel)", sampled_queries=len(self.xc_samples), agree=agree, disagree=disagree,
+                                    no_information=noinfo, no_information_reasons=reasons[:4], per_query_limit_ms=int(tl), wall_s=round(time.time() - t0, 2)))
+
     # ---- finish
     def finish(self):
+        try:
+            self.run_crosscheck()
+        except Exception as e:  # noqa: BLE001
+            self.crosscheck.append(dict(solver="cvc5", status=f"cross-check crashed: {type(e).__name__}: {e}"[:200]))
         wall = time.time() - self.t0
         n_obl = len(self.obligations)
         holds = sum(1 for o in self.obligations if o["verdict"] == "holds")
